@@ -4,7 +4,7 @@ For worktree /tmp/wt-<id>: each _mutant/patch<k>.diff is applied to the clean wo
 whole ctest suite run (must pass), the agent's demo<k>.sh is run (output kept as demonstration.txt), the tree is restored. Confirmed
 mutants are copied to /verif/seeded/<id>/m<k>/ (patch.diff, demo.c, demo.sh, demonstration.txt, meta.json). The worktree is
 removed afterwards (git -C /repo worktree remove --force) unless --keep.
-usage: bin/import_mutants.py C01 [C02 ...] [--keep]"""
+usage: bin/import_mutants.py C01 [C02 ...] [--keep] [--prefix wt2-] [--offset 3]"""
 import os, sys, json, subprocess, shutil
 VERIF = os.path.dirname(os.path.dirname(os.path.abspath(__file__)))
 
@@ -20,8 +20,15 @@ def sh(cmd, cwd=None, timeout=1800):
 
 def main():
     keep = '--keep' in sys.argv
-    for pid in [a for a in sys.argv[1:] if not a.startswith('--')]:
-        wt = '/tmp/wt-' + pid
+    argv = sys.argv[1:]
+    prefix = argv[argv.index('--prefix') + 1] if '--prefix' in argv else 'wt-'
+    offset = int(argv[argv.index('--offset') + 1]) if '--offset' in argv else 0
+    skip = set()
+    for fl in ('--prefix', '--offset'):
+        if fl in argv:
+            skip.add(argv.index(fl) + 1)
+    for pid in [a for i, a in enumerate(argv) if not a.startswith('--') and i not in skip]:
+        wt = '/tmp/' + prefix + pid
         md = os.path.join(wt, '_mutant')
         if not os.path.isdir(md):
             print(pid, 'no _mutant directory'); continue
@@ -48,13 +55,16 @@ def main():
             print(pid, k, status, 'tests_ok=%s scope_ok=%s files=%s' % (tests_ok, ok_scope, files))
             if status != 'confirmed':
                 print(b.stdout[-400:]); continue
-            dst = os.path.join(VERIF, 'seeded', pid, 'm%d' % k)
+            dst = os.path.join(VERIF, 'seeded', pid, 'm%d' % (k + offset))
             os.makedirs(dst, exist_ok=True)
             shutil.copy(patch, os.path.join(dst, 'patch.diff'))
             for ext in ('c', 'sh', 'py'):
                 src = os.path.join(md, 'demo%d.%s' % (k, ext))
                 if os.path.exists(src):
                     shutil.copy(src, os.path.join(dst, 'demo.' + ext))
+            for extra in os.listdir(md):
+                if extra.endswith(('.sh', '.h', '.py')) and not extra.startswith('demo') and os.path.isfile(os.path.join(md, extra)):
+                    shutil.copy(os.path.join(md, extra), os.path.join(dst, extra))
             open(os.path.join(dst, 'demonstration.txt'), 'w').write('# output of the author\'s demo on the mutated tree (bash demo.sh), last 60 lines\n' + (demo.stdout[-6000:] if demo else '(no demo script)'))
             ent = dict(ent); ent.update({'property': pid, 'files_changed': files, 'tests_pass_confirmed': tests_ok, 'author': 'independent sub-agent given only the property text and a scratch worktree'})
             json.dump(ent, open(os.path.join(dst, 'meta.json'), 'w'), indent=1)
